@@ -416,4 +416,144 @@ def Img.isArray : Img → Bool
 def State.Garbage (s : State) (k : Nat) : Prop :=
   s.img ≠ .array k ∧ s.fcache ≠ some k ∧ s.dcache ≠ some k
 
+/-! ## Reference model of the header OBJECTS (who aliases whom)
+
+`State` above keeps two header *values* and a proxy with its own `Par`, so "the proxy does not see later
+header edits" cannot even be mis-stated there.  `RState` is the object-level model: header objects are
+cells of a heap, `img.header` and the header object the caller still holds are cell *indices*, and the
+proxy's parameter source is either a copy made at construction or a *reference* to a header cell that
+is consulted on every read.  The construction code decides which (three defensive copies, `Copies`):
+
+* `nibabel/arrayproxy.py:175-208`   `ArrayProxy.__init__` copies shape/dtype/offset/slope/inter out of
+                                      `spec` (`Copies.proxy`)
+* `nibabel/analyze.py:961-964`      `from_file_map`: `hdr_copy = header.copy()` is what the proxy gets
+                                      and what `img._load_cache['header']` keeps (`Copies.fileMap`)
+* `nibabel/filebasedimages.py:188`  `self._header = self.header_class.from_header(header)` — a copy
+                                      (`Copies.image`); `nibabel/analyze.py:912-915` then resets
+                                      slope/inter on THAT object
+-/
+
+/-- where an `ArrayProxy` gets dtype/slope/inter from when it reads -/
+inductive PSrc
+  | copy (p : Par)     -- values copied at construction (what the code does)
+  | ref (c : Nat)      -- header object `c`, looked up at read time (the aliasing variant)
+  deriving DecidableEq, Repr
+
+inductive RImg
+  | array (own : Nat)
+  | proxy (raw : List Int) (src : PSrc)
+  deriving DecidableEq, Repr
+
+def Hdr.dflt : Hdr := ⟨none, 0, .f8⟩
+
+/-- content of header object `c` -/
+def cellGet (cells : List Hdr) (c : Nat) : Hdr := (cells[c]?).getD Hdr.dflt
+
+/-- the parameters a read uses NOW -/
+def PSrc.par (cells : List Hdr) : PSrc → Par
+  | .copy p => p
+  | .ref c => Par.ofHdr (cellGet cells c)
+
+structure RState where
+  cells : List Hdr         -- heap of header objects
+  imgCell : Nat            -- `img.header`
+  origCell : Nat           -- the header object the caller still holds (constructor argument /
+                           -- `img._load_cache['header']`)
+  img : RImg
+  heap : List Arr
+  fcache : Option Nat
+  dcache : Option Nat
+  last : Option Nat
+  deriving DecidableEq, Repr
+
+/-- the flat state a data access sees right now -/
+def RState.view (r : RState) : State :=
+  { img := (match r.img with
+      | .array o => .array o
+      | .proxy raw src => .proxy raw (src.par r.cells)),
+    heap := r.heap, fcache := r.fcache, dcache := r.dcache, last := r.last,
+    imgHdr := cellGet r.cells r.imgCell, origHdr := cellGet r.cells r.origCell }
+
+def RState.cellOf (r : RState) : HTarget → Nat
+  | .img => r.imgCell
+  | .orig => r.origCell
+
+/-- one op on the object-level state: a header edit mutates ONE cell (every alias sees it); every other
+    op is `step` on the current view -/
+def rstep (r : RState) (op : Op) : RState × Out :=
+  match op with
+  | .hdr t e =>
+      let r' := { r with cells := r.cells.modify (r.cellOf t) e.apply }
+      (r', ⟨.hdrs (cellGet r'.cells r'.imgCell) (cellGet r'.cells r'.origCell), r'.view.inMemory⟩)
+  | op =>
+      let x := step r.view op
+      ({ r with heap := x.1.heap, fcache := x.1.fcache, dcache := x.1.dcache, last := x.1.last }, x.2)
+
+def rrun (r : RState) : List Op → RState
+  | [] => r
+  | op :: ops => rrun (rstep r op).1 ops
+
+def rtrace (r : RState) : List Op → List Out
+  | [] => []
+  | op :: ops => (rstep r op).2 :: rtrace (rstep r op).1 ops
+
+/-- outputs of the non-header ops (header ops are executed, their outputs dropped) -/
+def rdataTrace (r : RState) : List Op → List Out
+  | [] => []
+  | op :: ops =>
+      if op.isHdr then rdataTrace (rstep r op).1 ops
+      else (rstep r op).2 :: rdataTrace (rstep r op).1 ops
+
+/-- which of the three defensive copies the construction code makes -/
+structure Copies where
+  proxy : Bool      -- arrayproxy.py:175-208
+  fileMap : Bool    -- analyze.py:964
+  image : Bool      -- filebasedimages.py:188
+  deriving DecidableEq, Repr
+
+/-- what the code in /repo does -/
+def Copies.code : Copies := ⟨true, true, true⟩
+
+/-- `ArrayProxy(file, spec = header object c)` -/
+def mkSrc (k : Copies) (cells : List Hdr) (c : Nat) : PSrc :=
+  if k.proxy then .copy (Par.ofHdr (cellGet cells c)) else .ref c
+
+/-- `klass(dataobj, affine, header = object c)`: filebasedimages.py:188, then analyze.py:912-915 resets
+    slope/inter on `self._header` (on the caller's object, if no copy was made) -/
+def mkImgHdr (k : Copies) (cells : List Hdr) (c : Nat) : List Hdr × Nat :=
+  if k.image then (cells ++ [imgHdrOf (cellGet cells c)], cells.length)
+  else (cells.modify c imgHdrOf, c)
+
+/-- `klass.from_file_map(...)` (analyze.py:957-978) over a file with header `h` and values `raw`:
+    cell 0 = `header`, `hdr_copy` = a new cell 1 (or cell 0 itself), the proxy is built from `hdr_copy`
+    BEFORE the image is, the image from `header`; the caller reaches `hdr_copy` through `_load_cache` -/
+def rinitFileMap (k : Copies) (raw : List Int) (h : Hdr) : RState :=
+  let cells1 := if k.fileMap then [h, h] else [h]
+  let pc := if k.fileMap then 1 else 0
+  let src := mkSrc k cells1 pc
+  let x := mkImgHdr k cells1 0
+  { cells := x.1, imgCell := x.2, origCell := pc, img := .proxy raw src,
+    heap := [], fcache := none, dcache := none, last := none }
+
+/-- `proxy = ArrayProxy(file, hdr); img = Nifti1Image(proxy, affine, hdr)` with the caller keeping `hdr`
+    (cell 0) -/
+def rinitCtor (k : Copies) (raw : List Int) (h : Hdr) : RState :=
+  let src := mkSrc k [h] 0
+  let x := mkImgHdr k [h] 0
+  { cells := x.1, imgCell := x.2, origCell := 0, img := .proxy raw src,
+    heap := [], fcache := none, dcache := none, last := none }
+
+/-- `Nifti1Image(arr, affine, hdr)` with the caller keeping `hdr` (cell 0); the array is heap object 0 -/
+def rinitArray (k : Copies) (a : Arr) (h : Hdr) : RState :=
+  let x := mkImgHdr k [h] 0
+  { cells := x.1, imgCell := x.2, origCell := 0, img := .array 0,
+    heap := [a], fcache := none, dcache := none, last := none }
+
+/-- the proxy (if any) owns a copy of its parameters -/
+def RState.Frozen (r : RState) : Prop := ∀ raw c, r.img ≠ .proxy raw (.ref c)
+
+/-- `img.header` and the caller's header are two different, existing objects -/
+def RState.Sep (r : RState) : Prop :=
+  r.imgCell < r.cells.length ∧ r.origCell < r.cells.length ∧ r.imgCell ≠ r.origCell
+
 end Nb.C13
